@@ -112,6 +112,46 @@ theorem parse_spec (header : Bytes) (size : Nat) (hs : size ≤ u64Max) :
     · trivial
     · exact parseLoop_spec size hs _ [] false (by simp)
 
+/-- what one comma separated piece contributes: nothing (blank or no overlap) or one range -/
+def pieceRange (size : Nat) (piece : Bytes) : Option HttpRange :=
+  if (trim piece).isEmpty then none
+  else
+    match parseSingleRange (trim piece) size with
+    | .range r => some r
+    | _ => none
+
+/-- if `parseLoop` succeeds, the ranges are those of the pieces, in header order -/
+theorem parseLoop_order (size : Nat) : ∀ (pieces : List Bytes) (acc : List HttpRange) (no : Bool) (rs : List HttpRange),
+    parseLoop size pieces acc no = .ok rs → rs = acc.reverse ++ pieces.filterMap (pieceRange size) := by
+  intro pieces
+  induction pieces with
+  | nil =>
+    intro acc no rs h
+    simp only [parseLoop] at h
+    split at h
+    · cases h
+    · cases h; simp
+  | cons ra rest ih =>
+    intro acc no rs h
+    simp only [parseLoop] at h
+    simp only [List.filterMap_cons, pieceRange]
+    split at h
+    · rename_i he
+      simp only [he, if_true]
+      exact ih acc no rs h
+    · rename_i he
+      simp only [he, if_false]
+      split at h
+      · rename_i r heq
+        simp only [heq]
+        have := ih (r :: acc) no rs h
+        simpa using this
+      · rename_i heq
+        simp only [heq]
+        exact ih acc true rs h
+      · cases h
+      · cases h
+
 /-! ### ChunkedReadFile -/
 
 theorem take_drop_add {α : Type} (l : List α) (a n m : Nat) :
